@@ -112,16 +112,31 @@ def attr_of(env, v, name):
         ai = info.attrs.get(name)
         if ai is None: raise Unmodelled('unknown attribute %s.%s' % (v.ent, name))
         if ai.kind == 'scalar':
-            return Bag([(g, r.cols[ai.col]) for g, r in v.items])
+            bag = Bag([(g, r.cols[ai.col]) for g, r in v.items])
+            bag.multi = getattr(v, 'multi', False)
+            return bag
+        # entity-valued attribute: the objects reached from any item.  Through a to-one or many-to-many hop an object can be reached
+        # along several paths: in memory pony keeps a Multiset with one occurrence per path, its SQL counts DISTINCT objects but
+        # sums attribute values per path.  Multiplicity-sensitive aggregates over such paths are outside the claim (`multi`);
+        # membership, emptiness, min and max are not sensitive to it.
+        acc, order = {}, []
+        def reach(r2, g):
+            if id(r2) not in acc: acc[id(r2)] = (r2, []); order.append(id(r2))
+            acc[id(r2)][1].append(g)
         if ai.kind == 'ref':
-            out = []
+            tinfo = S.ents[ai.target]
             for g, r in v.items:
                 sub = attr_of(env, ERef(v.ent, row=r), name)
                 for g2, r2 in rows_of(env, ai.target):
-                    tinfo = S.ents[ai.target]
-                    out.append((z3.And(g, g2, z3.Not(sub.pk.n), r2.cols[tinfo.pk].t == sub.pk.t), r2))
-            return Coll(ai.target, out)
-        raise Unmodelled('attribute lifting through %s' % ai.kind)
+                    reach(r2, z3.And(g, g2, z3.Not(sub.pk.n), r2.cols[tinfo.pk].t == sub.pk.t))
+        elif ai.kind in ('set', 'm2m'):
+            for g, r in v.items:
+                for g2, r2 in attr_of(env, ERef(v.ent, row=r), name).items:
+                    reach(r2, z3.And(g, g2))
+        else: raise Unmodelled('attribute lifting through %s' % ai.kind)
+        res = Coll(ai.target, [(z3.Or(acc[k][1]), acc[k][0]) for k in order])
+        res.multi = getattr(v, 'multi', False) or ai.kind in ('ref', 'm2m')
+        return res
     if not isinstance(v, ERef): raise Unmodelled('attribute %s of a non-entity value' % name)
     info = S.ents[v.ent]
     ai = info.attrs.get(name)
@@ -529,6 +544,8 @@ def bag_values(env, v):
 
 
 def aggregate(env, name, v, distinct=False):
+    if getattr(v, 'multi', False) and name in ('count', 'len', 'sum', 'avg'):
+        raise Unmodelled('multiplicity-sensitive aggregate over a path through a to-one / many-to-many hop (Multiset in memory, DISTINCT in SQL)')
     items = bag_values(env, v)
     Z = z3.IntVal
     if name in ('count', 'len'):
